@@ -11,6 +11,7 @@ CLAIMED = {
  "C07": ("fault_enumeration", "For every sampled history and compaction revision all single delete-failure positions (k<=8) x 4 failure kinds and all compactor crash positions (k<=8) are executed, plus sampled multi-fault and racing-writer schedules; reads at every revision >= R are compared with an MVCC model that ignores compaction; ground truth is scanned for forbidden deletes.", "6 (C07)"),
  "C08": ("exploration", "Seeded sequences and races of compaction requests and range reads; monotone floor model over accepted compactions, stored record followed through the ground truth, reads near the floor compared with the MVCC model.", "6 (C08)"),
  "C09": ("fault_enumeration", "For every sampled script all placements of one unknown-outcome fault (k<=8, applied / not applied), the same combined with each fault kind on the repair write, and fault pairs are executed on the simulated clock through the retry interval; response classification, progress, compaction cap and list+watch convergence are checked.", "6 (C09)"),
+ "C11": ("exploration", "Raw engine clients interleaved by the seeded scheduler on every engine and wrapper, with batches and iterators kept open across other clients' commits; a sorted-map reference model runs in lock-step and the final scan must equal it.", "6 (C11)"),
 }
 TECH = "deterministic simulation with fault injection (seeded token scheduler over testing/synctest, simkv fault seam, reference-model oracles)"
 NOTE = "Trusted: Go 1.26.8 testing/synctest quiescence, the simulator's decoder of the key layout, the hook lines (add-only, tag verif). Sampled search: clean run = evidence, not proof."
